@@ -1798,3 +1798,14 @@ if not hasattr(Tensor, "abs_"):
     Tensor.abs_ = _abs_
 if not hasattr(Tensor, "pow_"):
     Tensor.pow_ = _pow_
+
+
+# extension (C17): Euclidean norm along one dimension as an opaque sqrt node of the sum of squares
+def _norm(self, p=2, dim=None, keepdim=False):
+    if p not in (2, 2.0) or dim is None:
+        raise TraceError("norm: only p = 2 along a given dimension")
+    return sqrt((self * self).sum(dim, keepdim))
+
+
+if not hasattr(Tensor, "norm"):
+    Tensor.norm = _norm
